@@ -526,6 +526,24 @@ def _end_to_end(ctx, keys):
     values = ('5', '5.0', '6', '4', 'abc', '17', 'a', "['aes', 'mmx']",
               ' abc', '!abc', 'x!9y', '!b', 's=x', "['!x', 's=y']", 's')
 
+    if ctx.thorough:
+        operands = ('-1', '0', '4', '6', '5.0', '4.99', '5.01', '1e1', 'abc',
+                    'ABC', 'abd', '05', '+5', '5.')
+        for op in sorted(NUMERIC) + sorted(STRING):
+            specs += ['%s %s' % (op, y) for y in operands]
+        specs += ['<in> %s' % y for y in ('a', 'bc', '5', '.', 'abcd')]
+        specs += ['<or> %s' % ' <or> '.join(ys) for ys in (
+            ('5', '6'), ('abc', '5', 'x'), ('a', 'b', 'c', 'd', 'abc'),
+            ('4.99', '5.0'))]
+        specs += ['<all-in> %s' % ' '.join(ys) for ys in (
+            ('aes',), ('mmx', 'aes'), ('aes', 'mmx', 'sse'), ('a',))]
+        specs += ['<range-in> %s %s %s %s' % (lo_b, lo, hi, hi_b)
+                  for lo_b in '[(' for hi_b in '])'
+                  for lo, hi in (('4', '5'), ('5', '6'), ('5', '5'),
+                                 ('6', '4'), ('4.99', '5.01'), ('-1', '17'))]
+        values += ('-1', '0', '4.99', '5.01', '1e1', 'ABC', 'abd', '10',
+                   '05', "['aes']", "['aes', 'mmx', 'sse']", 'abcd')
+
     def oracle(v):
         sp, x = v['spec'], v['value']
         toks = sp.split()
